@@ -40,10 +40,18 @@ def check_roundtrip(c):
 
 def check_rt_history(c):
     """one object, several round trips in both orders, interleaved with bare calls and refused (wrong-size) calls"""
-    obj = guard(CI.make, c)
+    shared = {}
+    obj = guard(CI.make, c, shared)
     tag = CI.label(c) + ":history"
     n = CI.BLOCK[c["cipher"]]
+    sc = CI.sibling(c)
+    sib = guard(CI.make, sc) if c.get("sib") else None     # another key, built after obj, used between its calls
     for i, (kind, blk) in enumerate(c["calls"]):
+        if sib is not None and i % 2 == 1:
+            if guard(sib.dec, guard(sib.enc, blk[:n].ljust(n, b"s"))) != blk[:n].ljust(n, b"s"):
+                raise Violation(tag + ":sibling-object:dec(enc(B))!=B", None, None)
+        if not CI.unchanged(shared):
+            raise Violation(tag + ":caller's-key-vector-changed", shared["snap"], None)
         if kind.startswith("bad-"):
             attempt(getattr(obj, kind[4:]), blk)
         elif kind in ("enc", "dec"):
@@ -54,14 +62,14 @@ def check_rt_history(c):
             d = guard(obj.dec, e)
             if d != blk:
                 raise Violation(tag + ":dec(enc(B))!=B", {"call": i, "B": blk}, {"call": i, "B": d})
-            if guard(guard(CI.make, c).dec, e) != blk:
+            if guard(guard(CI.make, c, shared).dec, e) != blk:
                 raise Violation(tag + ":other-object-dec(enc(B))!=B", {"call": i, "B": blk}, None)
         elif kind == "tr":
             d = guard(obj.dec, blk)
             e = guard(obj.enc, d)
             if e != blk:
                 raise Violation(tag + ":enc(dec(B))!=B", {"call": i, "B": blk}, {"call": i, "B": e})
-            if guard(guard(CI.make, c).enc, d) != blk:
+            if guard(guard(CI.make, c, shared).enc, d) != blk:
                 raise Violation(tag + ":other-object-enc(dec(B))!=B", {"call": i, "B": blk}, None)
         else:
             raise AssertionError(kind)
@@ -72,8 +80,8 @@ def rt_history_strategy(tier):
         n = CI.BLOCK[c["cipher"]]
         good = st.tuples(st.sampled_from(["rt", "tr", "rt", "tr", "enc", "dec"]), gen.blob(n))
         bad = st.tuples(st.sampled_from(["bad-enc", "bad-dec"]), gen.blob_of(st.sampled_from([n - 1, n + 1, 0, n // 2, 2 * n])))
-        return st.lists(gen.pick((4, good), (1, bad)), min_size=2, max_size=6).map(
-            lambda l: dict(c, calls=tuple(l) + (("rt", bytes(range(n))), ("tr", bytes(range(n))))))
+        return st.tuples(st.lists(gen.pick((4, good), (1, bad)), min_size=2, max_size=6), st.booleans()).map(
+            lambda t: dict(c, sib=t[1], calls=tuple(t[0]) + (("rt", bytes(range(n))), ("tr", bytes(range(n))))))
     return CI.config_strategy().flatmap(with_calls)
 
 
@@ -263,9 +271,11 @@ FACETS = [
           rule="random configurations and blocks: dec(enc(B)) == B == enc(dec(B)), lengths, and a second equally configured object decrypts"),
     Facet("cipher-roundtrip-histories", check_rt_history, strategy=rt_history_strategy, budget={"quick": 1200, "thorough": 30000},
           shards={"quick": 16, "thorough": 32}, nontrivial=lambda c: len(c["calls"]) >= 3,
-          classify=lambda c: (CI.label(c), "has refused call" if any(k.startswith("bad-") for k, _ in c["calls"]) else "no refused call"),
+          classify=lambda c: (CI.label(c), "has refused call" if any(k.startswith("bad-") for k, _ in c["calls"]) else "no refused call",
+                              "sibling object with another key" if c.get("sib") else "no sibling"),
           rule="ONE object: 4..8 calls mixing round trips in both orders, bare enc/dec calls and refused calls with a block of the wrong "
-               "size; every round trip is also inverted by a fresh equally configured object"),
+               "size; every round trip is also inverted by a fresh equally configured object (for Bits-typed Serpent/Threefish keys built "
+               "from the SAME key vectors, which must stay unchanged); in half of the cases a sibling object with another key works in between"),
     Facet("components-exhaustive", check_component, cases=component_cases, exhaustive=True, distinct=False,
           nontrivial=nontriv_comp, classify=lambda c: (c["comp"],), shards={"quick": 8, "thorough": 8},
           rule="AES Sbox/Sbox_inv on all 256 values, ShiftRows/SubBytes position states, MixColumns on all 16x256 single-byte states "
